@@ -2,6 +2,7 @@ package engine
 
 import (
 	"go/ast"
+	"go/token"
 	"go/types"
 )
 
@@ -150,4 +151,203 @@ func (p *Prog) UnexpectedCallers(refs []Ref, allowed []string) []string {
 		}
 	}
 	return SortedKeys(bad)
+}
+
+// GatesWithHelpers returns g.Gates(target) and, for every gate that tests on its
+// success side the error result (err == nil) or the bool result of a call to a
+// function h of the loaded program, the gates of h's success return — imported
+// only when that is sound: an error helper must have exactly one `return …, nil`
+// and every other return must yield a syntactically non-nil error (a composite
+// literal, &T{…}, or a call of errors.New / fmt.Errorf / a New…Error
+// constructor); a bool helper must have exactly one `return true` and otherwise
+// `return false`. Imported conditions are in h's own variables (Gate.In = h).
+// This keeps "a guard block moved into a helper returning error/bool" from
+// hiding the guard.
+func (f *Fn) GatesWithHelpers(target *Site, depth int) []HGate {
+	var out []HGate
+	g := f.Graph()
+	for _, gt := range g.Gates(target) {
+		out = append(out, HGate{Gate: gt, In: f})
+		if depth <= 0 {
+			continue
+		}
+		call, wantTrue := f.successCallOf(gt)
+		if call == nil {
+			continue
+		}
+		cs := f.SiteOf(call)
+		if cs == nil {
+			continue
+		}
+		fo, _ := cs.Callee.(*types.Func)
+		if fo == nil {
+			continue
+		}
+		h := f.Prog.FnOf(fo)
+		if h == nil || h.Body == nil {
+			continue
+		}
+		ret := h.soleSuccessReturn(wantTrue)
+		if ret == nil {
+			continue
+		}
+		out = append(out, h.GatesWithHelpers(ret, depth-1)...)
+	}
+	return out
+}
+
+// HGate is a Gate together with the function whose variables its condition uses.
+type HGate struct {
+	Gate
+	In *Fn
+}
+
+// successCallOf: the gate holds exactly when the call's error result is nil
+// (wantTrue=false → error helper) or the call's bool result is true.
+func (f *Fn) successCallOf(gt Gate) (call *ast.CallExpr, boolHelper bool) {
+	info := f.Info()
+	cond := ast.Unparen(gt.Cond)
+	onTrue := gt.OnTrue
+	for {
+		u, ok := cond.(*ast.UnaryExpr)
+		if !ok || u.Op != token.NOT {
+			break
+		}
+		cond, onTrue = ast.Unparen(u.X), !onTrue
+	}
+	if c, ok := cond.(*ast.CallExpr); ok {
+		if onTrue {
+			if tv, ok := info.Types[c]; ok && tv.Type != nil {
+				if b, ok := tv.Type.Underlying().(*types.Basic); ok && b.Kind() == types.Bool {
+					return c, true
+				}
+			}
+		}
+		return nil, false
+	}
+	b, ok := cond.(*ast.BinaryExpr)
+	if !ok || (b.Op != token.EQL && b.Op != token.NEQ) {
+		return nil, false
+	}
+	var v ast.Expr
+	switch {
+	case isNilIdent(b.Y):
+		v = b.X
+	case isNilIdent(b.X):
+		v = b.Y
+	default:
+		return nil, false
+	}
+	// success side: v == nil
+	if (b.Op == token.EQL) != onTrue {
+		return nil, false
+	}
+	id, ok := ast.Unparen(v).(*ast.Ident)
+	if !ok {
+		return nil, false
+	}
+	obj := info.ObjectOf(id)
+	if obj == nil || !isErrorType(obj.Type()) {
+		return nil, false
+	}
+	// the assignment feeding the test: the if's Init, or the statement right before the if
+	var found *ast.CallExpr
+	fromAssign := func(st ast.Stmt) *ast.CallExpr {
+		as, ok := st.(*ast.AssignStmt)
+		if !ok || len(as.Rhs) != 1 {
+			return nil
+		}
+		c, ok := ast.Unparen(as.Rhs[0]).(*ast.CallExpr)
+		if !ok {
+			return nil
+		}
+		if l, ok := as.Lhs[len(as.Lhs)-1].(*ast.Ident); ok && info.ObjectOf(l) == obj {
+			return c
+		}
+		return nil
+	}
+	InspectBody(f, func(n ast.Node) {
+		switch x := n.(type) {
+		case *ast.IfStmt:
+			if x.Cond == gt.Cond && x.Init != nil {
+				if c := fromAssign(x.Init); c != nil {
+					found = c
+				}
+			}
+		case *ast.BlockStmt:
+			for i, st := range x.List {
+				if is, ok := st.(*ast.IfStmt); ok && is.Cond == gt.Cond && is.Init == nil && i > 0 {
+					if c := fromAssign(x.List[i-1]); c != nil {
+						found = c
+					}
+				}
+			}
+		}
+	})
+	return found, false
+}
+
+func isNilIdent(e ast.Expr) bool {
+	id, ok := ast.Unparen(e).(*ast.Ident)
+	return ok && id.Name == "nil"
+}
+
+func isErrorType(t types.Type) bool {
+	n, ok := t.(*types.Named)
+	return ok && n.Obj().Pkg() == nil && n.Obj().Name() == "error"
+}
+
+// soleSuccessReturn: see GatesWithHelpers.
+func (h *Fn) soleSuccessReturn(boolHelper bool) *Site {
+	var succ []*ast.ReturnStmt
+	sound := true
+	InspectBody(h, func(n ast.Node) {
+		r, ok := n.(*ast.ReturnStmt)
+		if !ok {
+			return
+		}
+		if len(r.Results) == 0 {
+			sound = false // named results: not analysed
+			return
+		}
+		last := ast.Unparen(r.Results[len(r.Results)-1])
+		if boolHelper {
+			if id, ok := last.(*ast.Ident); ok && (id.Name == "true" || id.Name == "false") {
+				if id.Name == "true" {
+					succ = append(succ, r)
+				}
+				return
+			}
+			sound = false
+			return
+		}
+		if isNilIdent(last) {
+			succ = append(succ, r)
+			return
+		}
+		switch x := last.(type) {
+		case *ast.CompositeLit:
+			return
+		case *ast.UnaryExpr:
+			if _, ok := x.X.(*ast.CompositeLit); ok && x.Op == token.AND {
+				return
+			}
+		case *ast.CallExpr:
+			name := ""
+			switch fx := x.Fun.(type) {
+			case *ast.SelectorExpr:
+				name = fx.Sel.Name
+			case *ast.Ident:
+				name = fx.Name
+			}
+			if name == "New" || name == "Errorf" || (len(name) > 3 && name[:3] == "New") || (len(name) > 3 && name[:3] == "Err") {
+				return
+			}
+		}
+		sound = false
+	})
+	if !sound || len(succ) != 1 {
+		return nil
+	}
+	return h.SiteOf(succ[0])
 }
